@@ -120,6 +120,28 @@ Definition find_file (d : disk) (e : env) (parent fn : bytes) (ft maxlen : Z) : 
   else if maxlen - 1 - lenZ fn <? 0 then FTooSmall
   else first_hit d ft (candidates e parent fn ft maxlen).
 
+(* ---- the search-path list as STATE: cgio_path_delete(NULL), cgio_path_add, cg_set_path, cg_add_path, cg_configure ------- *)
+(* a C string argument: None = NULL pointer *)
+Definition path_arg := option bytes.
+Definition arg_empty (a : path_arg) : bool := match a with None => true | Some p => lenZ p =? 0 end.
+(* cgio_path_delete(NULL): the whole list goes *)
+Definition env_path_delete_all (e : env) : env := mkE (e_adf e) (e_hdf e) (e_cgns e) [].
+(* cgio_path_add: NULL or "" => CGIO_ERR_NULL_FILE, nothing changes (false); else appended *)
+Definition env_path_add (e : env) (a : path_arg) : env * bool :=
+  match a with
+  | Some p => if lenZ p =? 0 then (e, false) else (mkE (e_adf e) (e_hdf e) (e_cgns e) (e_list e ++ [p]), true)
+  | None => (e, false)
+  end.
+(* cg_set_path(path): cgio_path_delete(NULL) FIRST and unconditionally; then, if path && *path, cgio_path_add(path) *)
+Definition mll_set_path (e : env) (a : path_arg) : env * bool :=
+  let e0 := env_path_delete_all e in
+  if arg_empty a then (e0, true) else env_path_add e0 a.
+(* cg_add_path(path) = cgio_path_add(path) *)
+Definition mll_add_path (e : env) (a : path_arg) : env * bool := env_path_add e a.
+(* cg_configure(CG_CONFIG_SET_PATH = 1 | CG_CONFIG_ADD_PATH = 2, path) *)
+Definition mll_configure (what : Z) (e : env) (a : path_arg) : env * bool :=
+  if what =? 1 then mll_set_path e a else mll_add_path e a.
+
 Definition ADF_FILENAME_LENGTH : Z := 1024.
 Definition ADF_MAX_LINK_DATA_SIZE : Z := 4096.
 Definition ADF_MAXIMUM_LINK_DEPTH : Z := 100.
@@ -609,10 +631,21 @@ Definition h5_get (v : ver) (d : disk) (i : nid) (what : Z) : ans :=
       else match h5_open_link v d i with Ok l => AVal (h5_raw_attr d l what) | Err x => AErr x end
   end.
 
-Definition h5_mutate (d : disk) (f : bytes) (o : op) : disk * result :=
+(* ADFH_Create (and ADFH_Link through it) with a link node as parent.  Cur (66db802): refused, ADFH_ERR_LINK_NODE -- like
+   every other ADFH mutator refuses a link id.  Old: the  if (is_link(hpid))  was commented out: the child -- under a
+   resolving or a dangling link -- became a real group INSIDE the link node's own group, which no reader ever looks
+   into (they all go to the target): the call succeeded and nothing observable changed *)
+Definition h5_parent_is_link (t : table) (o : op) : bool :=
+  match o with
+  | OCreate p _ _ | OLink p _ _ _ _ => match find_node t p with Some pr => is_link pr | None => false end
+  | _ => false
+  end.
+
+Definition h5_mutate (v : ver) (d : disk) (f : bytes) (o : op) : disk * result :=
   match disk_get d f with
   | None => (d, RErr)
   | Some df =>
+      if h5_parent_is_link (d_tab df) o then (d, match v with Old => ROk | Cur => RErr end) else
       let '(t', r) := step_table true (d_tab df) o in
       match r with RErr => (d, RErr) | _ => (disk_set d (mkD f (d_type df) t'), r) end
   end.
